@@ -510,6 +510,11 @@ func (w *Worker) timeNow() Value {
 	tp := w.eng.prog.ImportedPackage("time").Type("Time").Type()
 	s := w.zero(tp).(Struct)
 	name := fmt.Sprintf("now#%d", w.nowCount)
+	if w.h.Concrete != nil {
+		s[1] = w.tc.Const(64, uint64(1<<41)+uint64(w.nowCount)*1000)
+		w.nowCount++
+		return s
+	}
 	v := w.tc.Var(name, 64)
 	// monotone, and far from the zero time (in either direction of wrap)
 	lo := w.tc.Const(64, 1<<40)
